@@ -301,7 +301,7 @@ func isAutoObligation(name string) bool {
 		return false
 	}
 	k := name[i+1:]
-	for _, p := range []string{"safe:", "safe-all:", "lockset:", "own:", "order#", "alias:", "lock-balance:", "bcast-locked#"} {
+	for _, p := range []string{"safe:", "safe-all:", "lockset:", "own:", "order#", "alias:", "alias-in:", "lock-balance:", "bcast-locked#"} {
 		if strings.HasPrefix(k, p) {
 			return true
 		}
@@ -312,7 +312,8 @@ func isAutoObligation(name string) bool {
 type Baseline struct {
 	Note       string                     `json:"note"`
 	Properties map[string][]BaselineEntry `json:"properties"`
-	Symbols    map[string][]Sym           `json:"symbols,omitempty"` // variables of the functions under contract (rename tolerance)
+	Symbols    map[string][]Sym           `json:"symbols,omitempty"`  // variables of the functions under contract (rename tolerance)
+	Closures   map[string][]ClosureSig    `json:"closures,omitempty"` // ordered function literals per parent (renumbering tolerance)
 }
 
 func baselinePath() string { return filepath.Join(verifDir, "baseline", "obligations.json") }
@@ -438,6 +439,7 @@ func cmdBaseline(args []string) int {
 	defer os.RemoveAll(tmp)
 	old, _ := loadBaseline()
 	old.Symbols = e.allSymbols()
+	old.Closures = e.allClosures()
 	props := fs.Args()
 	if len(props) == 0 {
 		props = allProps()
